@@ -9,13 +9,17 @@ use reqwest::{problem_recoverable, st as net, MAX_SENDS};
 // The request "body" is the nonce it was built with: the server model records its first byte.
 // (A capturing closure like the real data builders: a zero-sized fn item / closure passed as `&F`
 // crashes CBMC 6.11 with "l2_rename_rvalues case `struct' not handled".)
+fn builder_fn(nonce: &str, _url: &str) -> Result<String, Error> {
+    Ok(nonce.to_string())
+}
+type BuilderPtr = for<'a, 'b> fn(&'a str, &'b str) -> Result<String, Error>;
 macro_rules! mk_builder {
-    ($tag:ident) => {
-        |nonce: &str, _url: &str| -> Result<String, Error> {
-            let _t: u8 = *$tag;
-            Ok(nonce.to_string())
-        }
-    };
+    ($tag:ident) => {{
+        let _t: u8 = *$tag;
+        // a function POINTER (8 bytes), not a zero-sized fn item or closure
+        let p: BuilderPtr = builder_fn;
+        p
+    }};
 }
 
 fn mk_endpoint(with_nonce: bool) -> Endpoint {
@@ -136,6 +140,7 @@ fn c09_get_limited_and_nonce_kept() {
         1 => {
             if s.nonce_kind[0] == 2 {
                 assert!(r.is_err(), "C04: a malformed Replay-Nonce must be rejected");
+                assert!(e.nonce.is_none(), "C04: a malformed Replay-Nonce was kept for later requests");
             } else {
                 assert!(r.is_ok());
                 assert!(e.nonce.is_some() == (s.nonce_kind[0] == 1), "C04: the nonce of a GET response must be kept (and none invented)");
